@@ -268,6 +268,25 @@ func c02Check(data []byte) {
 		}
 		vsymAssert(Equal(it, it2), "owned-equal-copy")
 	}
+
+	// the same bytes as a PREFIX VIEW of a larger buffer (len < cap, stale bytes behind the view):
+	// what lies beyond len is not input
+	big := make([]byte, len(data), len(data)+9)
+	copy(big, data)
+	stale := big[:cap(big)]
+	for i := len(data); i < len(stale); i++ {
+		stale[i] = 0x21 // looks like the start of another item
+	}
+	it3, err3 := DecodeOwned(big)
+	vsymAssert((err3 == nil) == (err == nil), "prefix-view-agrees-on-acceptance")
+	if err3 == nil && err == nil && it3 != nil && it != nil {
+		vsymAssert(Equal(it, it3), "prefix-view-equal-item")
+	}
+	it4, err4 := Decode(big)
+	vsymAssert((err4 == nil) == (err == nil), "prefix-view-copy-agrees-on-acceptance")
+	if err4 == nil && err == nil && it4 != nil && it != nil {
+		vsymAssert(Equal(it, it4), "prefix-view-copy-equal-item")
+	}
 }
 
 // VerifC02_AllShort: every byte string of length 0..N (N = 5 quick, 6 thorough; 7 did not finish
